@@ -633,6 +633,40 @@ def work(arg):
                 flag([("blocklist", "messages of a peer that was block-listed after connecting still reach the handler", "")], wit)
         finally:
             env.close()
+    elif kind == "reflect":
+        # somebody who sees the traffic sends GENUINE datagrams of the established session back where they came from:
+        # the server's own datagrams to the honest client, unchanged, with the client's address as source (they are valid
+        # ciphertext under the session key; only the direction identifier tells them from the client's).  The server has
+        # been talking more than the client, so their numbers lie ahead of the server's receive window.
+        _, mtu, entry, talk = arg
+        env = Env(mtu, "none") if entry == "twisted" else UdpEnv(mtu, "none")
+        try:
+            w = env.w
+            ce = w.clients[0]
+            for i in range(talk):
+                w.ctxt.connections[ce.addr].send(b"world state %d" % i)
+                w.tick()
+            env.flush()
+            # World records Dgram objects, the UDP world (server address, bytes) pairs of what the server wrote
+            own = [(d.data if hasattr(d, "data") else d[1]) for d in w.all_sent
+                   if (d.src == "s" and d.client_addr == ce.addr if hasattr(d, "data") else d[0] == ce.addr)]
+            own = [x for x in own if len(x) >= 36][-(talk + 12):]
+            wit = {"part": "reflect", "mtu": mtu, "entry": entry, "talk": talk}
+            for data in own + own[::-1]:
+                total += 1
+                counts.inc("reflected")
+                v = env.inject(data, ce.addr)
+                flag([(o, sg.replace("a hostile datagram", "a genuine server-to-client datagram reflected to the server"), m) for o, sg, m in v], wit)
+                if v and any(o == "alive" for o, _, _ in v):
+                    env.build()
+                    break
+            for _ in range(3):
+                echoes += 1
+                if not env.echo_round():
+                    flag([("honest", "the honest client's echo does not arrive any more after its server's datagrams were reflected to the server", "%d datagrams" % len(own))], wit)
+                    break
+        finally:
+            env.close()
     elif kind == "batch":
         # hostile datagrams cost the honest clients no loop iterations: a batch of them queued AHEAD of an honest datagram in
         # the same iteration does not postpone the answer
@@ -738,6 +772,9 @@ def run(tier, seed):
             for entry in ("twisted", "udp"):
                 jobs.append(("ban", mtu, how, entry))
         jobs.append(("mass", mtu, 2000 if tier == "quick" else 6000))
+        for entry in ("twisted", "udp"):
+            for talk in ((0, 40) if tier == "quick" else (0, 8, 40, 300)):
+                jobs.append(("reflect", mtu, entry, talk))
     if seed:
         k = seed % len(jobs)
         jobs = jobs[k:] + jobs[:k]
@@ -763,7 +800,7 @@ def run(tier, seed):
         "worlds": len(jobs), "classes": dict(classes),
         "evaluations": total, "distinct_nontrivial": total - rnd,
         "rule": "structured family = body kind (13: empty, junk, valid hello, 6 damaged hellos, 3 serializer bombs, unknown id) x type byte 0..8 x count {0,1,2,255} x length field {true,0,1,true+1,65535} x magic x crc ok/bad + two-message datagrams + raw lengths incl. RECV_SIZE; "
-                "x source {fresh port each time, temp-pool address, spoofed honest address, block-listed} x block list {none, attacker, honest} x MTU {1500, 512}; pairs of productive datagrams; block-listing a connected peer and a temp-pool peer mid-session (set.add and setBlockList, both entry points); a flood of hellos from 2000/6000 addresses; every injection through datagramReceived + one real loop iteration",
+                "x source {fresh port each time, temp-pool address, spoofed honest address, block-listed} x block list {none, attacker, honest} x MTU {1500, 512}; pairs of productive datagrams; block-listing a connected peer and a temp-pool peer mid-session (set.add and setBlockList, both entry points); a flood of hellos from 2000/6000 addresses; the server's own genuine datagrams reflected to it from the client's address (server ahead of the client by 0/40 datagrams, both entry points); every injection through datagramReceived + one real loop iteration",
         "exhaustive": True,
         "samples": [{"source": "fresh", "label": "type 1 count 1 len-field true to-server crc-ok body: hello, padding 1 short"},
                     {"source": "spoofed", "label": "type 6 count 2 len-field true to-server crc-ok body: junk"}, {"mass": 2000}],
